@@ -53,6 +53,50 @@ def is_option_ty(t):
     return ty_head(t) in ('std::option::Option', 'core::option::Option')
 
 
+def _first_generic(t):
+    i = t.find('<')
+    if i < 0:
+        return None
+    inner = t[i + 1:t.rindex('>')]
+    depth = 0
+    for j, ch in enumerate(inner):
+        if ch in '<([':
+            depth += 1
+        elif ch in '>)]':
+            depth -= 1
+        elif ch == ',' and depth == 0:
+            return inner[:j].strip()
+    return inner.strip()
+
+
+def peel_payload(t, proj):
+    """type of  (x as Ready/Some/Ok).0  for x: Poll<T>/Option<T>/Result<T,E>; None if not recognised"""
+    cur = strip_ty(t)
+    i = 0
+    proj = [p for p in proj if p != '*']
+    while i < len(proj):
+        p = proj[i]
+        if p.startswith('as '):
+            vn = p[3:].split('#')[0]
+            head = ty_head(cur)
+            if vn in ('Ready', 'Some', 'Ok', 'Continue') and head.split('::')[-1] in ('Poll', 'Option', 'Result', 'ControlFlow'):
+                g = _first_generic(cur)
+                if head.split('::')[-1] == 'ControlFlow':
+                    # ControlFlow<B, C>: Continue payload is the second generic; not needed here
+                    return None
+                if g is None:
+                    return None
+                if i + 1 < len(proj) and proj[i + 1] == '.0':
+                    i += 2
+                else:
+                    i += 1
+                cur = strip_ty(g)
+                continue
+            return None
+        return None
+    return cur
+
+
 def const_val(c):
     """operand constant -> ('const', int) | ('str', s) | ('item', path) | ('k', text)"""
     if 'item' in c and not c.get('promoted'):
@@ -709,6 +753,11 @@ class Engine:
                 return self.locals[d['l']]['ty']
         if v[0] == 'local':
             return self.locals[v[1]]['ty']
+        if v[0] == 'place':
+            bt = self.value_ty(v[1])
+            if bt is None:
+                return None
+            return peel_payload(bt, v[2])
         return None
 
     def norm_discr(self, inner):
